@@ -399,7 +399,7 @@ func TestC05_Programs(t *testing.T) {
 	ev.Assume("a fresh Group.Point()/Scalar() is only used as receiver; Inv/Div only with invertible divisors; Embed data <= EmbedLen; methods a group documents as unsupported are not generated")
 	groups := Groups(tier() == "thorough")
 	rcheck(t, 400*len(groups), 6000*len(groups), func(t *rapid.T) {
-		gi := groups[rapid.IntRange(0, len(groups)-1).Draw(t, "group")]
+		gi := groups[uniformInt(t, 0, len(groups)-1, "group")]
 		c05Program(t, ev, gi, 12)
 	})
 }
